@@ -2,7 +2,7 @@
 from ..engine import Leg, Prop
 from .. import structh as H
 
-W_UNIS = {"NV": 4, "NU": 3, "UAV": 5, "URV": 5, "VAU": 5, "VRU": 5, "NE": 0.4, "SL": 0.2}
+W_UNIS = {"NV": 4, "NU": 3, "UAV": 5, "URV": 5, "VAU": 5, "VRU": 5, "NE": 0.4, "SL": 0.2, "CLONE": 0.8}
 
 
 def member_violations(snap):
@@ -52,6 +52,9 @@ class UniHistory(Leg):
     def oracle(self, case, obs):
         if obs is None:
             return []
+        m = H.clone_violations(case["ops"], obs)
+        if m:
+            return m
         prev = None
         for i, (op, r) in enumerate(zip(case["ops"], obs)):
             snap = r["snap"]
